@@ -81,4 +81,89 @@ theorem user_objects (c : Comps S P Row) (cfg : Cfg) (picks : List Nat) (seed : 
     (l : Nat) (h : lrnCount ts l > 1) : (runEvents c cfg picks seed ts).2 l = c.init l :=
   user_objects' c cfg picks seed ts l (Or.inl h)
 
+
+/-! ## phase 2: the log at full strength, process-level state, un-copyable learners -/
+
+/-- `log_exact`: in every configuration and schedule the log holds, each exactly once, precisely the tasks
+that raise on pristine objects — a parameter task whose `params` raises, an evaluation task whose evaluation
+raises (at whatever position: the evaluator itself, the environment's read, the learner's predict or learn
+— `eval` is an arbitrary function) — and nothing else -/
+theorem log_exact (c : Comps S P Row) (cfg : Cfg) (picks : List Nat) (seed : Nat) (ts : List Triple) :
+    (runLog c cfg picks seed ts).Perm ((makeTasks .none ts).filter (fun t => t.fails c seed)) :=
+  runLog_exact' c cfg picks seed ts
+
+/-- an environment whose `params` raises is reported in the log and loses only its own parameter row;
+no interaction row is lost (`params_failure_keeps_rows`) -/
+theorem env_params_failure (c : Comps S P Row) (cfg : Cfg) (picks : List Nat) (seed : Nat) (ts : List Triple)
+    (e : Nat) (he : e ∈ envsOf ts) (err : Err) (hf : c.envParams e = .error err) :
+    Task.env (idOf (envsOf ts) e) e ∈ runLog c cfg picks seed ts ∧
+    ∀ p, (idOf (envsOf ts) e, p) ∉ (run c cfg picks seed ts).envs := env_params_failure' c cfg picks seed ts e he err hf
+
+theorem lrn_params_failure (c : Comps S P Row) (cfg : Cfg) (picks : List Nat) (seed : Nat) (ts : List Triple)
+    (l : Nat) (hl : l ∈ lrnsOf ts) (err : Err) (hf : c.lrnParams l = .error err) :
+    Task.lrn (idOf (lrnsOf ts) l) l ∈ runLog c cfg picks seed ts ∧
+    ∀ p, (idOf (lrnsOf ts) l, p) ∉ (run c cfg picks seed ts).lrns := lrn_params_failure' c cfg picks seed ts l hl err hf
+
+theorem val_params_failure (c : Comps S P Row) (cfg : Cfg) (picks : List Nat) (seed : Nat) (ts : List Triple)
+    (v : Nat) (hv : v ∈ valsOf ts) (err : Err) (hf : c.valParams v = .error err) :
+    Task.val (idOf (valsOf ts) v) v ∈ runLog c cfg picks seed ts ∧
+    ∀ p, (idOf (valsOf ts) v, p) ∉ (run c cfg picks seed ts).vals := val_params_failure' c cfg picks seed ts v hv err hf
+
+theorem params_failure_keeps_rows (c : Comps S P Row) (cfg : Cfg) (picks : List Nat) (seed : Nat) (ts : List Triple)
+    (t : Triple) (ht : t ∈ ts) :
+    (run c cfg picks seed ts).rowsOf (idKey ts t) =
+      match evalS c seed t with
+      | .ok rows => numbered rows
+      | .error _ => [] := params_failure_keeps_rows' c cfg picks seed ts t ht
+
+section phase2
+variable {G : Type}
+
+/-- `t4_rows_eq_evalS` with process state: under `ProcessLocalClean` the rows of a listed triple are those of
+evaluating it in a fresh process on a pristine learner (none when that raises, or when no pristine copy
+of a shared learner can be made) -/
+theorem t4_rows_process_state (cp : CompsP G S P Row) (Clean : G → Prop) (hc : ProcessLocalClean cp Clean)
+    (cfg : Cfg) (sched : Sched) (seed : Nat) (ts : List Triple) (t : Triple) (ht : t ∈ ts) :
+    (runP cp cfg sched seed ts).rowsOf (idKey ts t) =
+      match evalS (cp.clean ts) seed t with
+      | .ok rows => numbered rows
+      | .error _ => [] := rowsOf_runP' hc cfg sched seed ts t ht
+
+/-- `rows_alone` with process state -/
+theorem rows_alone_process_state (cp : CompsP G S P Row) (Clean : G → Prop) (hc : ProcessLocalClean cp Clean)
+    (cfg : Cfg) (sched : Sched) (seed : Nat) (t : Triple) :
+    (runP cp cfg sched seed [t]).rowsOf (0, 0, 0) =
+      match (cp.evalP cp.σ0 t.2.2 t.1 (cp.init t.2.1) (effSeedP cp seed t.2.2)).1.1 with
+      | .ok rows => numbered rows
+      | .error _ => [] := rows_alone_P' hc cfg sched seed t
+
+/-- the log with process state, exactly -/
+theorem log_exact_process_state (cp : CompsP G S P Row) (Clean : G → Prop) (hc : ProcessLocalClean cp Clean)
+    (cfg : Cfg) (sched : Sched) (seed : Nat) (ts : List Triple) :
+    (runLogP cp cfg sched seed ts).Perm ((makeTasks .none ts).filter (fun t => t.fails (cp.clean ts) seed)) :=
+  runLogP_exact' hc cfg sched seed ts
+
+/-- `copy_error_logged_per_triple`: a learner object that cannot be deep-copied and is listed in several
+triples: each of its triples is reported in the log and has no rows; every triple of a learner that is
+not blocked keeps exactly the rows of its evaluation in a fresh process on a pristine learner -/
+theorem copy_error_logged_per_triple (cp : CompsP G S P Row) (Clean : G → Prop) (hc : ProcessLocalClean cp Clean)
+    (cfg : Cfg) (sched : Sched) (seed : Nat) (ts : List Triple) (t : Triple) (ht : t ∈ ts)
+    (hb : cp.blocked ts t.2.1 = true) :
+    Task.eval (idKey ts t).1 t.1 (idKey ts t).2.1 t.2.1 (idKey ts t).2.2 t.2.2 (decide (lrnCount ts t.2.1 > 1))
+      ∈ runLogP cp cfg sched seed ts ∧
+    (runP cp cfg sched seed ts).rowsOf (idKey ts t) = [] ∧
+    ∀ t' ∈ ts, cp.blocked ts t'.2.1 = false → ∀ rows,
+      (cp.evalP cp.σ0 t'.2.2 t'.1 (cp.init t'.2.1) (effSeedP cp seed t'.2.2)).1.1 = .ok rows →
+      (runP cp cfg sched seed ts).rowsOf (idKey ts t') = numbered rows :=
+  copy_error_logged_per_triple' hc cfg sched seed ts t ht hb
+
+/-- isolation needs the process-state hypothesis: with `leakyComps` the rows of the second triple in the
+two-triple experiment are not the rows it gets alone -/
+theorem isolation_forced_counterexample :
+    (runP leakyComps ⟨1, 0, 0⟩ ⟨[], []⟩ 1 leakyTriples).rowsOf (1, 1, 0) = [(1, 11)] ∧
+    (runP leakyComps ⟨1, 0, 0⟩ ⟨[], []⟩ 1 [(1, 1, 0)]).rowsOf (0, 0, 0) = [(1, 10)] := by
+  decide +kernel
+
+end phase2
+
 end Coba.C03
